@@ -114,6 +114,18 @@ func NewPacketDslParserByContent(data string) (*gen.PacketDslParser, *antlr.Comm
 	return parser, stream, nil
 }
 
+// ParseWholeInput invokes the start rule and reports input the rule left unconsumed as a syntax
+// error. The grammar's start rule does not end in EOF, so the generated parser stops silently at
+// the first token that cannot begin a definition and everything after it would be ignored.
+func ParseWholeInput(p *gen.PacketDslParser, listener *SyntaxErrorListener) gen.IPacketContext {
+	tree := p.Packet()
+	if t := p.GetCurrentToken(); t != nil && t.GetTokenType() != antlr.TokenEOF && !listener.HasErrors() {
+		listener.SyntaxError(p, t, t.GetLine(), t.GetColumn(),
+			"extraneous input '"+t.GetText()+"' expecting a packet, MetaData or options definition", nil)
+	}
+	return tree
+}
+
 // RenderToString render tmpl
 func RenderToString(tmpl string, lang string, data interface{}) (string, error) {
 	t := template.Must(template.New(lang).Parse(tmpl))
